@@ -1691,8 +1691,90 @@ func genDrawRevisit(g *h.Gen) {
 	}
 }
 
+// genDrawCornerCover: the bottom-right-corner path of drawCell (auto-margin terminals with an insert-character string: the
+// corner cell is written one column early and pushed right, then the cell that OWNS column w-2 is repainted) over layered
+// wide / narrow content in the last columns of the last row: which cell owns column w-2 depends on the whole row (a wide rune
+// at w-3 covers it; a stale wide rune stored under the right half of a newer one does not count), so every combination of
+// wide / narrow stores at columns w-5 … w-2 is built up over two frames, then only the corner changes (C13: only the corner
+// and the neighbour used to paint it may be written; C01: the row still reads as the application stored it).
+func genDrawCornerCover(g *h.Gen) {
+	r := g.R
+	var ents []string
+	for _, name := range []string{"sun-color", "cygwin", "beterm", "sun"} {
+		if terminfo.VerifEntries()[name] != nil {
+			ents = append(ents, name)
+		}
+	}
+	if len(ents) == 0 {
+		return
+	}
+	sts := []string{"0,0,0,0,0,-,-", StyleF{Fg: uint64(tcell.PaletteColor(2)), Bg: uint64(tcell.PaletteColor(4))}.String(),
+		StyleF{Fg: uint64(tcell.PaletteColor(3)), Attrs: 1}.String()}
+	cols := map[uint64]bool{uint64(tcell.PaletteColor(2)): true, uint64(tcell.PaletteColor(4)): true, uint64(tcell.PaletteColor(3)): true}
+	n := 0
+	emit := func(w, hh int, ops []string) {
+		name := ents[n%len(ents)]
+		n++
+		ops = append(ops, fitOps(name, cols)...)
+		g.Emit("draw %s %d %d %d %s", withVariant(name), n%2, w, hh, strings.Join(ops, "; "))
+	}
+	wides, narrows := []int{0x4e16, 0x754c, 0x3042}, []int{'a', 'b', 'c', 'd'}
+	// exhaustive over (frame-1 kind, frame-2 kind) ∈ {none, narrow, wide}² at the three columns w-4, w-3, w-2 of the last row
+	for code := 0; code < 729; code++ {
+		if !g.Thorough() && code%3 != int(r.Intn(3)) { // a third of the combinations per quick run, rotating with the seed
+			continue
+		}
+		w, hh := 6, 2
+		y := hh - 1
+		var ops []string
+		c := code
+		for frame := 0; frame < 2; frame++ {
+			order := []int{w - 4, w - 3, w - 2}
+			if frame == 1 { // the newer stores from the right, so that a wide rune at w-4 lands over an older one at w-3
+				order = []int{w - 2, w - 3, w - 4}
+			}
+			for _, x := range order {
+				k := c % 3
+				c /= 3
+				switch k {
+				case 1:
+					ops = append(ops, drawStoreOp(0, x, y, narrows[(x+frame)%len(narrows)], nil, sts[(x+frame)%len(sts)]))
+				case 2:
+					ops = append(ops, drawStoreOp(0, x, y, wides[(x+frame)%len(wides)], nil, sts[(x+frame+1)%len(sts)]))
+				}
+			}
+			ops = append(ops, "W")
+		}
+		ops = append(ops, drawStoreOp(0, w-1, y, 'Z', nil, sts[1]), "W", "W", drawStoreOp(0, w-1, y, 'Y', nil, sts[2]), "W")
+		emit(w, hh, ops)
+	}
+	// random layered histories on other widths
+	for i := g.N(60, 2000); i > 0; i-- {
+		w, hh := r.Range(3, 8), r.Range(1, 3)
+		y := hh - 1
+		var ops []string
+		for frame := r.Range(2, 4); frame > 0; frame-- {
+			for k := r.Range(1, 4); k > 0; k-- {
+				x := r.Range(0, w-1)
+				if r.Chance(70) && w > 4 {
+					x = r.Range(w-5, w-1)
+				}
+				m := h.Pick(r, narrows)
+				if r.Chance(50) {
+					m = h.Pick(r, wides)
+				}
+				ops = append(ops, drawStoreOp(r.Intn(3), x, y, m, nil, h.Pick(r, sts)))
+			}
+			ops = append(ops, "W")
+		}
+		ops = append(ops, drawStoreOp(0, w-1, y, 'Z', nil, sts[1]), "W", "W")
+		emit(w, hh, ops)
+	}
+}
+
 func genDraw(g *h.Gen) {
 	genDrawMatrix(g)
+	genDrawCornerCover(g)
 	genDrawRestoreIdentical(g)
 	genDrawRevisit(g)
 	genDrawLockedWide(g)
